@@ -52,6 +52,10 @@ from .xdp import PacketVar as XDPPacketVar
 from .xdp import XDPExitCode
 
 
+#: all DeviceVars live in this map, for all kinds of sync groups
+device_properties = ArrayMap()
+
+
 class PacketDesc:
     """A single value in a process data
 
@@ -263,7 +267,7 @@ class DeviceVar(ArrayGlobalVarDesc):
         print(self.my_data)  # should print 7 once the program is running
     """
     def __init__(self, size="I", write=False):
-        super().__init__(FastSyncGroup.properties, size)
+        super().__init__(device_properties, size)
         self.write = write
 
     def __get__(self, instance, owner):
@@ -903,7 +907,7 @@ class ProcessSyncGroup(SyncGroup, SimulatedEBPF):
     or read (but not write) :class:`TerminalVar`\\ s.
     """
 
-    properties = ArrayMap()
+    properties = device_properties
     wkc_errors = properties.globalVar('I')
 
     def __init__(self, ec, devices, **kwargs):
@@ -977,7 +981,7 @@ class FastSyncGroup(SyncGroupBase, XDP):
     """A :class:`SyncGroup` where all devices are EBPF programs"""
     license = "GPL"
 
-    properties = ArrayMap()
+    properties = device_properties
     wkc_errors = properties.globalVar('I')
 
     def __init__(self, ec, devices, **kwargs):
